@@ -5,7 +5,7 @@ import json
 import os
 import time
 
-from .model import AnalysisError
+from .model import AnalysisError, Unsupported
 
 VERIF = os.path.dirname(os.path.dirname(os.path.abspath(__file__)))
 KNOWN = os.path.join(VERIF, 'known_findings.json')
@@ -84,6 +84,9 @@ class Ctx:
     def run_rule(self, name, fn):
         try:
             fn(self)
+        except Unsupported as e:
+            self.fail(name, 'analysable', f'mido: {name}',
+                      f'cannot establish the obligations of {name}: {e}', construct=f'{name}::unsupported')
         except AnalysisError as e:
             self.error(f'{name}: {e}')
         except RecursionError as e:      # pragma: no cover
